@@ -4,7 +4,7 @@
 From Coq Require Import String.
 From Coq Require Import List NArith Bool.
 From HS Require Import Base.Prelude Model.Value Model.Escape Model.Version Model.Json Model.ZincParse.
-From HS Require Import Proofs.ZincParseP.
+From HS Require Import Proofs.ZincParseP Proofs.ZincFuelP.
 Import ListNotations.
 Open Scope N_scope.
 
@@ -14,13 +14,24 @@ Proof. exact zparse_grid_total. Qed.
 Theorem C09_document_total : forall t, (exists gs, zparse_doc t = Ok gs) \/ zparse_doc t = Raise ZincParseException.
 Proof. exact zparse_doc_total. Qed.
 
-(* scalar parsing raises only ValueError-family exceptions (ZincParseException is a ValueError).
-   PARTIAL: the model's own OutOfFuel marker is not excluded by proof (nesting deeper than the fuel
-   S (S (length t)) is impossible because every level consumes a bracket, but that is not proved here);
-   the correspondence check reports any OutOfFuel answer as a difference. *)
-Theorem C09_scalar_exceptions_partial : forall ver3 t e,
-  zparse_scalar ver3 t = Raise e -> e = ZincParseException \/ e = ValueError \/ e = OutOfFuel.
-Proof. exact zparse_scalar_exn. Qed.
+(* scalar parsing raises only ValueError-family exceptions (ZincParseException is a ValueError);
+   in particular the model's own OutOfFuel marker never comes out: see C09_fuel_adequate below *)
+Theorem C09_scalar_exceptions : forall ver3 t e,
+  zparse_scalar ver3 t = Raise e -> e = ZincParseException \/ e = ValueError.
+Proof. exact zparse_scalar_exn_full. Qed.
+
+(* fuel adequacy: the recursive rules are run with fuel S (S (length t)); every nesting level consumes at least
+   one character ([ , { , << , ver:) before the rule one level down is tried, so the fuel never runs out - the model
+   answers for every text what the unbounded grammar answers, and the ZincParseException of the grid reader is never
+   a disguised OutOfFuel *)
+Theorem C09_fuel_adequate : forall ver3 t rest,
+  p_scalar (S (S (length t))) ver3 t <> Some (Raise OutOfFuel, rest) /\
+  p_grid (S (S (length t))) ver3 t <> Some (Raise OutOfFuel, rest).
+Proof. intros ver3 t rest. split; [apply fuel_adequate_scalar|apply fuel_adequate_grid]. Qed.
+(* more generally, at any fuel, OutOfFuel needs a text at least as long as the fuel *)
+Theorem C09_out_of_fuel_needs_long_text : forall fuel ver3 t rest,
+  (p_scalar fuel ver3 t = Some (Raise OutOfFuel, rest) \/ p_grid fuel ver3 t = Some (Raise OutOfFuel, rest)) -> (fuel <= length t)%nat.
+Proof. intros fuel ver3 t rest [H|H]; [exact (proj1 (oofb_scalar_grid fuel ver3) _ _ H)|exact (proj2 (oofb_scalar_grid fuel ver3) _ _ H)]. Qed.
 
 (* every rule of the grammar, at every nesting depth: a parse action raises ValueError only *)
 Theorem C09_actions_raise_valueerror_only : forall fuel ver3 t e rest,
@@ -60,7 +71,9 @@ Proof. vm_compute. reflexivity. Qed.
 
 Print Assumptions C09_grid_total.
 Print Assumptions C09_document_total.
-Print Assumptions C09_scalar_exceptions_partial.
+Print Assumptions C09_scalar_exceptions.
+Print Assumptions C09_fuel_adequate.
+Print Assumptions C09_out_of_fuel_needs_long_text.
 Print Assumptions C09_actions_raise_valueerror_only.
 Print Assumptions C09_literals_never_raise.
 Print Assumptions C09_missing_header_rejected.
